@@ -1,6 +1,7 @@
 package rv
 
 import (
+	"os"
 	"fmt"
 	"go/ast"
 	"go/token"
@@ -84,6 +85,16 @@ func boundsObligations(r *Report, rule string, fn *ssa.Function, assume func(*BC
 		c.induction() // lower bounds of loop variables may depend on the assumed bounds
 	}
 	for _, s := range c.IndexSites() {
+		if os.Getenv("RV_BDEBUG") != "" && strings.Contains(FuncName(fn), os.Getenv("RV_BDEBUG")) {
+			fmt.Println("BSITE", FuncName(fn), s.Kind, s.Desc, s.Proved, s.Need)
+			for _, cj := range c.factDNF(s.Site.Block, 3) {
+				var fs []string
+				for _, f := range c.strengthen(cj) {
+					fs = append(fs, f.String())
+				}
+				fmt.Println("   FACTS", strings.Join(fs, " ; "))
+			}
+		}
 		total++
 		key := s.Kind + ":" + s.Desc
 		if s.Proved {
@@ -139,7 +150,7 @@ func runC15(r *Report) {
 					if (x.Op == token.QUO || x.Op == token.REM) && isIntType(x.Type()) {
 						if _, isc := ConstInt(x.Y); !isc {
 							c := NewBCtx(fn)
-							ok := c.ProveAt(b, c.Lin(x.Y).Add(konst(1), -1))
+							ok := c.ProveAtIdx(b, s.Idx, c.Lin(x.Y).Add(konst(1), -1))
 							r.ObSite("R15b", s, "divisor", ok, "integer division by a value not proved >= 1")
 						}
 					}
